@@ -4,7 +4,7 @@
 From Coq Require Import List NArith ZArith Bool.
 From Coq Require Extraction.
 From Coq Require Import ExtrOcamlBasic.
-From HV Require Import Model.Big Model.Rat Model.NumText Model.Chars Model.Parse Spec.Grammar Model.Exec Spec.Lang Model.Opt Model.Repl Model.Debug Model.Utf8 Model.Cli.
+From HV Require Import Model.Big Model.Rat Model.NumText Model.Chars Model.Parse Spec.Grammar Model.Exec Spec.Lang Model.Opt Model.Repl Model.Debug Model.Utf8 Model.Cli Model.Compile.
 Extraction "model.ml"
   Big.from_vec Big.bminus Big.bneg Big.badd Big.bsub Big.bmul Big.bdiv Big.brem Big.bgcd Big.beq Big.bcmp
   Big.bnew Big.new_pre_fix Big.is_zero Big.to_int Big.wfb Big.bval
@@ -19,4 +19,5 @@ Extraction "model.ml"
   Opt.optimize_prog Opt.run_level Opt.all_fixed Opt.pinned
   Repl.repl_run
   Debug.debug_run
-  Cli.run_cli Cli.check_cli Utf8.encode Utf8.decode.
+  Cli.run_cli Cli.check_cli Utf8.encode Utf8.decode
+  Compile.compile_prog Compile.ir_run Compile.dispatch_tree Compile.tree_select.
